@@ -995,6 +995,9 @@ func (e *Engine) sitesFor(shape string, fn, root *ssa.Function) []*Site {
 func (e *Engine) instrShape(ins ssa.Instruction) []string {
 	var out []string
 	switch i := ins.(type) {
+	case *ssa.TypeAssert:
+		// a case of a type switch / a type assertion: "typeassert []byte" (an anchor: sites on it carry no state)
+		out = append(out, "typeassert "+types.TypeString(i.AssertedType, func(p *types.Package) string { return p.Name() }))
 	case *ssa.MapUpdate:
 		out = append(out, "mapwrite "+mapWhatOf(i.Map))
 	case ssa.CallInstruction:
